@@ -66,28 +66,28 @@ Definition good_header (h : header) : Prop :=
   h_m0 h = PROTO_MAGIC0 /\ h_m1 h = PROTO_MAGIC1 /\ h_m2 h = PROTO_MAGIC2 /\ h_m3 h = PROTO_MAGIC3 /\
   h_version h = PROTO_VERSION /\ 0 <= h_length h <= MAX_PAYLOAD_SIZE /\ 0 <= h_flags h < 2^16.
 
-Lemma validate_good h : good_header h -> validate h = ROk tt.
+Lemma validate_good h : good_header h -> hvalidate h = ROk tt.
 Proof.
-  intros (H0 & H1 & H2 & H3 & Hv & Hl & _). unfold validate, magic_ok.
+  intros (H0 & H1 & H2 & H3 & Hv & Hl & _). unfold hvalidate, magic_ok.
   rewrite H0, H1, H2, H3, Hv, !Z.eqb_refl. cbn [andb negb].
   replace (h_length h >? MAX_PAYLOAD_SIZE) with false; [reflexivity|].
   symmetry. rewrite Z.gtb_ltb. apply Z.ltb_ge. lia.
 Qed.
 
-Lemma validate_ok h : validate h = ROk tt ->
+Lemma validate_ok h : hvalidate h = ROk tt ->
   magic_ok (h_m0 h) (h_m1 h) (h_m2 h) (h_m3 h) = true /\ h_version h = PROTO_VERSION /\
   h_length h <= MAX_PAYLOAD_SIZE.
 Proof.
-  unfold validate.
+  unfold hvalidate.
   destruct (magic_ok _ _ _ _); cbn [negb]; [|discriminate].
   destruct (Z.eqb_spec (h_version h) PROTO_VERSION); cbn [negb]; [|discriminate].
   destruct (h_length h >? MAX_PAYLOAD_SIZE) eqn:E; [discriminate|].
   rewrite Z.gtb_ltb in E. apply Z.ltb_ge in E. auto.
 Qed.
 
-Lemma validate_cases h : validate h = ROk tt \/ exists e, validate h = RErr e.
+Lemma validate_cases h : hvalidate h = ROk tt \/ exists e, hvalidate h = RErr e.
 Proof.
-  unfold validate.
+  unfold hvalidate.
   destruct (negb _); [right; eauto|]. destruct (negb _); [right; eauto|].
   destruct (_ >? _); [right; eauto|left; reflexivity].
 Qed.
@@ -138,7 +138,7 @@ Lemma header_decode_cases :
   end.
 Proof.
   unfold buf, header_decode. destruct (from_u8 b8) as [t|]; [|reflexivity].
-  unfold validate. cbn [h_m0 h_m1 h_m2 h_m3 h_version h_length]. fold len.
+  unfold hvalidate. cbn [h_m0 h_m1 h_m2 h_m3 h_version h_length]. fold len.
   destruct (negb (magic_ok b0 b1 b2 b3)); [reflexivity|].
   destruct (negb (b9 =? PROTO_VERSION)); [reflexivity|].
   destruct (len >? MAX_PAYLOAD_SIZE); reflexivity.
@@ -183,12 +183,12 @@ Proof.
 Qed.
 End Reject.
 
-Lemma header_decode_ok_valid buf h : header_decode buf = ROk h -> validate h = ROk tt.
+Lemma header_decode_ok_valid buf h : header_decode buf = ROk h -> hvalidate h = ROk tt.
 Proof.
   unfold header_decode.
   do 12 (destruct buf as [|? buf]; [discriminate|]). destruct buf; [|discriminate].
   destruct (from_u8 _); [|discriminate].
-  match goal with |- context [validate ?x] => destruct (validate x) as [[]|e] eqn:E end; [|discriminate].
+  match goal with |- context [hvalidate ?x] => destruct (hvalidate x) as [[]|e] eqn:E end; [|discriminate].
   intros E2; injection E2 as <-. exact E.
 Qed.
 
@@ -260,7 +260,7 @@ Lemma read_message_reservation inp : fst (read_message utf8 inp) <= MAX_PAYLOAD_
 Proof.
   unfold read_message.
   destruct (read_from inp) as [[h rest]|e] eqn:E; [|cbn [fst]; unfold MAX_PAYLOAD_SIZE; lia].
-  destruct (validate h) as [[]|e] eqn:Ev; [|cbn [fst]; unfold MAX_PAYLOAD_SIZE; lia].
+  destruct (hvalidate h) as [[]|e] eqn:Ev; [|cbn [fst]; unfold MAX_PAYLOAD_SIZE; lia].
   cbn [fst]. apply validate_ok in Ev. destruct Ev as (_ & _ & Hl). exact Hl.
 Qed.
 End Utf8.
